@@ -20,7 +20,7 @@ import (
 // accesses). A plain native run leaves the interleaving to the Go scheduler, and a window of
 // a few instructions is hit once in millions of runs. When the plain replay passes, the
 // replay binary is rebuilt from an overlay copy of the affected source files in which a call
-// of verifDelaySiteX() (random: nothing, Gosched, or a sleep of up to 200 µs) is inserted
+// of verifDelaySiteX() (random: nothing, Gosched, a sleep of up to 200 µs, occasionally up to 5 ms) is inserted
 // before each such statement and before the statement following it. The delays add no
 // synchronisation (no shared memory is touched), so they cannot create a failure the
 // unmodified code could not show; they only make rare interleavings frequent.
@@ -34,10 +34,14 @@ import (
 
 func verifDelaySiteX() {
 	n := time.Now().Nanosecond() >> 3
-	switch n % 4 {
-	case 0:
-	case 1:
+	switch n % 16 {
+	case 0, 1, 2:
+	case 3, 4, 5:
 		runtime.Gosched()
+	case 6: // now and then a long pause: lets a goroutine that is milliseconds behind catch up
+		time.Sleep(time.Duration(n%5000) * time.Microsecond)
+	case 7:
+		time.Sleep(time.Duration(n%1000) * time.Microsecond)
 	default:
 		time.Sleep(time.Duration(n%200) * time.Microsecond)
 	}
